@@ -291,6 +291,11 @@ def sigFromPy(pobj):
             return 'av'
 
     elif isinstance(pobj, tuple):
+        if not pobj:
+            raise MarshallingError(
+                'Empty tuples have no DBus representation (structs must '
+                'contain at least one field)'
+            )
         return '(' + ''.join(sigFromPy(e) for e in pobj) + ')'
 
     elif isinstance(pobj, dict):
